@@ -2379,6 +2379,11 @@ class Kconfig(object):
                     # Flag that the symbol no longer exists, in
                     # case something still depends on it
                     _touch_dep_file(path, name)
+                    # ... or on one of its deprecated aliases, which are no
+                    # longer defined either
+                    if self._deprecated_options:
+                        for dep_name in self._deprecated_options.get_deprecated_option(name):
+                            _touch_dep_file(path, dep_name)
 
     def _write_old_vals(self, path):
         # Helper for writing auto.conf. Basically just a simplified
